@@ -385,6 +385,8 @@ class Machine:
                 v = cur.load()
                 if isinstance(v, (Struct, Enum, Tup, Closure)):
                     cur = Ptr(v.f, p[1])
+                elif isinstance(v, Ptr) and ("Unique<" in p[2] or "NonNull<" in p[2]):
+                    pass        # Box<T> is modelled as a plain pointer: Box.0 (Unique) .0 (NonNull) is the pointer itself
                 else:
                     cur = self.prog.field_special(self, v, p[1], p[2])
             elif k == "downcast":
@@ -526,6 +528,9 @@ class Machine:
             if is_sym(x):
                 return ~x
             return mask(~x, w)
+        if op == "PtrMetadata":
+            v = x.load() if isinstance(x, Ptr) else x
+            return len(self.prog.index_special(self, v)) if not isinstance(v, (Arr, Tup)) else len(v.f)
         if op == "Neg":
             w = width_of(ty or "") or (x.size() if is_sym(x) else 64)
             if is_sym(x):
